@@ -14,7 +14,7 @@ Record mt_result := { mt_ok : bool; mt_buf : list N; mt_nfds : N; mt_spec : list
 Definition op_marshal (typed : bool) (be : bool) (prefix : nat) (v : val) : mt_result :=
   let pre := prefix_bytes prefix 0 in
   let c0 := {| mbuf := pre; mfds := 0 |} in
-  let '(c, ok) := if typed then marshal_t be v c0 else marshal_p be 0 v c0 in
+  let '(c, ok) := if typed then marshal_t be v c0 else marshal_param_top be v c0 in
   let wv := fst (relabel v 0) in
   {| mt_ok := ok; mt_buf := mbuf c; mt_nfds := mfds c;
      mt_spec := pre ++ spec_enc be (len pre) wv;
@@ -36,7 +36,7 @@ Record rt_result := { rt_pushed : bool; rt_valid : bool; rt_res : outcome (val *
 Definition op_roundtrip (typed : bool) (be : bool) (prefix : nat) (e : ety) (v : val) : rt_result :=
   let pre := prefix_bytes prefix 0 in
   let c0 := {| mbuf := pre; mfds := 0 |} in
-  let '(c, ok) := if typed then marshal_t be v c0 else marshal_p be 0 v c0 in
+  let '(c, ok) := if typed then marshal_t be v c0 else marshal_param_top be v c0 in
   if negb ok then {| rt_pushed := false; rt_valid := false; rt_res := Err; rt_trailer := false |} else
   let buf := mbuf c ++ [165] in
   let tys := repeat (TBase BByte) prefix ++ [erase e; TBase BByte] in
